@@ -350,10 +350,47 @@ impl Prop for SrcProp {
             if env.known.active("C13").iter().any(|x| x == "R14") {
                 if let Some((rs, re)) = c.range {
                     let (rs, re) = (rs.min(c.src.len()), re.min(c.src.len()));
-                    let inside = syn::flatten(&root).iter().any(|f| {
+                    let flat = syn::flatten(&root);
+                    let inside = flat.iter().any(|f| {
                         f.node.kind() == K::Equation && ((rs > f.start && rs < f.end) || (re > f.start && re < f.end))
                     });
-                    if inside {
+                    // ... unless the range lies within code embedded with `#` (then the node is code)
+                    let in_hashed_code = {
+                        // deepest node covering the range
+                        let mut best: Option<usize> = None;
+                        for (i, f) in flat.iter().enumerate() {
+                            if f.start <= rs && f.end >= re && best.is_none_or(|b| f.depth >= flat[b].depth) {
+                                best = Some(i);
+                            }
+                        }
+                        let mut cur = best;
+                        let mut hashed = false;
+                        while let Some(i) = cur {
+                            if flat[i].node.kind() == K::Equation {
+                                break;
+                            }
+                            // previous sibling is a hash?
+                            if let Some(p) = flat[i].parent_idx {
+                                let mut prev: Option<&syn::Flat> = None;
+                                for g in flat.iter().filter(|g| g.parent_idx == Some(p)) {
+                                    if std::ptr::eq(g.node, flat[i].node) {
+                                        break;
+                                    }
+                                    prev = Some(g);
+                                }
+                                if prev.is_some_and(|g| g.node.kind() == K::Hash) && flat[i].start < rs.max(flat[i].start + 1) && flat[i].end > flat[i].start {
+                                    // the covering chain passes through an embedded code expression that
+                                    // strictly contains the range start
+                                    if flat[i].start < rs || flat[i].end > re {
+                                        hashed = true;
+                                    }
+                                }
+                            }
+                            cur = flat[i].parent_idx;
+                        }
+                        hashed
+                    };
+                    if inside && !in_hashed_code {
                         return Some("R14".into());
                     }
                 }
@@ -439,7 +476,7 @@ impl Prop for SrcProp {
                 Ok(n) => Verdict::Pass { nontrivial: n >= 1 && changed },
                 Err((sig, d)) => Verdict::fail(sig, d),
             },
-            Which::C08 => match oracle::prose::check(&root, &oroot) {
+            Which::C08 => match oracle::prose::check_with_text(&c.src, &root, &out, &oroot) {
                 Ok(ok) => {
                     let long = c.src.lines().any(|l| l.chars().count() > c.cfg.width);
                     Verdict::Pass { nontrivial: ok.multi_line_nodes >= 1 || long }
